@@ -42,6 +42,10 @@ type Linear struct {
 	// may then fail; a failed write may or may not have been applied; every read
 	// that still succeeds must be a complete state.
 	CancelAtStep int `json:"cancel_at_step,omitempty"`
+	// Bystander > 0: elsewhere in the process a controller with that many objects
+	// has a monitor whose handler keeps the list OnInitialize handed it - that
+	// slice and the slices List() returns here have nothing to do with each other
+	Bystander int `json:"bystander,omitempty"`
 	Sim     SimCfg           `json:"sim"`
 }
 
@@ -138,6 +142,9 @@ func genC15(g GenCtx) interface{} {
 			}
 		}
 		sc.Writers = append(sc.Writers, ops)
+	}
+	if rng.Intn(6) == 0 {
+		sc.Bystander = pickInt(rng, 3, 8, 20)
 	}
 	nr := 1 + rng.Intn(6)
 	for r := 0; r < nr; r++ {
@@ -341,6 +348,23 @@ func runC15(sci interface{}) {
 	defer cancel()
 	stopch := make(chan struct{})
 	c := kcache.VerifNewCache(ctx, world.NewLog(false), stopch, sc.Filter.Build())
+	var by *world.H
+	if sc.Bystander > 0 {
+		bsrv := world.NewServer("pod")
+		for i := 0; i < sc.Bystander; i++ {
+			bsrv.Apply(world.Spec{NS: "elsewhere", Name: "o" + itoa(i)})
+		}
+		by = world.NewH(bsrv, world.FilterSpec{}, noRelist, false)
+		by.NoRelist, by.KeepInitAlways = true, true
+		by.Start()
+		if !world.WaitClosed(by.Ctrl.Ready(), time.Second) {
+			detsim.Fail("not-ready", "bystander controller not ready")
+		}
+		if _, err := by.MakeNode(nil, "monitor", world.FilterSpec{}, ""); err != nil {
+			detsim.Fail("api-error", "bystander monitor: %v", err)
+		}
+		detsim.Settle()
+	}
 	var clock int64
 	tick := func() int64 { clock++; return clock }
 	var hist []*histOp
@@ -466,6 +490,13 @@ func runC15(sci interface{}) {
 	}
 	if !world.WaitClosed(done, time.Hour) {
 		detsim.Fail("wedge", "cache clients did not finish")
+	}
+	if by != nil {
+		detsim.Settle()
+		for _, n := range by.Nodes {
+			n.CheckKeptInit()
+		}
+		by.Ctrl.Close()
 	}
 	for _, h := range hist {
 		if h.Dropped {
